@@ -4,7 +4,7 @@ from dataclasses import dataclass
 from .stmt import (
     Stmt, IfBlock, VarDeclClause, ArrayDimRange, CallStmt,
     ReturnValueSetStmt, FunctionBlock, SubBlock, SimpleCaseClause,
-    RangeCaseClause, CompareCaseClause, CaseElseStmt,
+    RangeCaseClause, CompareCaseClause, CaseElseStmt, SelectBlock,
 )
 from .expr import Type, Expr, Lvalue, NumericLiteral, FuncCall
 from .program import Label, LineNo
@@ -409,6 +409,20 @@ class Pass1(CompilePass):
             EC.ELSE_WITHOUT_IF,
             'ELSE outside IF block',
             node=node)
+
+    def process_case_pre(self, node):
+        if not isinstance(node.parent, SelectBlock):
+            raise CompileError(
+                EC.BLOCK_MISMATCH,
+                'CASE outside SELECT CASE block',
+                node=node)
+
+    def process_case_else_pre(self, node):
+        if not isinstance(node.parent, SelectBlock):
+            raise CompileError(
+                EC.BLOCK_MISMATCH,
+                'CASE ELSE outside SELECT CASE block',
+                node=node)
 
     def process_data_pre(self, node):
         if node.parent_routine != self.compilation.main_routine:
